@@ -206,9 +206,14 @@ static void check_outcome(const char *hname) {
 static void explore_harness(long hi, void *arg) {
     (void)arg; CURH = &H[hi]; harness_t *h = CURH;
     int saved_nreg = NREG;
+#ifndef LIB_HAS_SYNC
+#define LIB_HAS_SYNC 0
+#endif
     { char where[256]; if (solo_write_sets(where, sizeof where)) { char cfg[96]; snprintf(cfg, sizeof cfg, "harness=%s", h->name);
+        if (LIB_HAS_SYNC) { mc_sample("static-writes", cfg, "", 0, where); }      /* the tree uses locks or atomics: left to the scheduler and TSan */
+        else {
         mc_violation("static-writes", "data-race:library-static-memory-written-by-two-threads", "", cfg, (const unsigned char *)"", 0, "%s; the library has no synchronisation, so this is a write-write race under every schedule", where);
-        NREG = saved_nreg; return; } }
+        NREG = saved_nreg; return; } } }
     /* sequential reference: no prefix => thread 0 runs to completion, then 1, then 2 */
     execute(NULL, 0, 1);
     for (int t = 0; t < MAXT; t++) strcpy(REFLOG[t], LOG[t]);
@@ -323,7 +328,7 @@ int main(int argc, char **argv) {
     C_EXEC = mc_counter("schedules_executed"); C_STATES = mc_counter("states"); C_TRANS = mc_counter("transitions"); C_MAXSW = mc_counter("max_context_switches_in_one_execution");
     C_SHAREDW = mc_counter("harnesses_where_shared_memory_changed"); C_POINTS = mc_counter("scheduling_points_executed"); C_OUTCOMES = mc_counter("extra_distinct_outcome_vectors");
     if (mc_replay) return do_replay();
-    int nh = mc_thorough ? NH : 16;
+    int nh = mc_thorough ? NH : 17;
     mc_parallel("all interleavings at basic-block granularity, one harness per shard", nh, explore_harness, NULL);
     return mc_finish();
 }
